@@ -188,6 +188,9 @@ pub fn ext_bits_now(m: &Model, ext: &[&Argument<usize>]) -> (u32, bool) {
     (bits, ok)
 }
 
+/// One event of a history: (kind 0..=5, x, y, with_certificate); kinds 0-3 are the four updates, 4 = DC, 5 = DS.
+pub type Event = (u32, usize, usize, bool);
+
 /// What a history may contain.
 #[derive(Clone, Copy)]
 pub struct Plan {
@@ -199,17 +202,25 @@ pub struct Plan {
     pub labels: u32,
     /// reservation factor of the assumptions-on-attacks solvers
     pub arg_factor: f64,
+    /// when set, the events are these (concrete history, used by the Kani harnesses: only the oracle is symbolic)
+    pub fixed: Option<&'static [Event]>,
 }
 
 macro_rules! drive {
     ($solver:expr, $m:ident, $plan:ident, $sem_dc:expr, $sem_ds:expr, $sh:ident) => {{
         let mut s = $solver;
         let mut queries = 0;
-        for _ in 0..$plan.events {
-            let ev = nd::below(6);
-            let x = nd::below($plan.labels) as usize;
+        let n_events = match $plan.fixed {
+            Some(f) => f.len(),
+            None => $plan.events,
+        };
+        for k in 0..n_events {
+            let (ev, x, fy, fcert) = match $plan.fixed {
+                Some(f) => f[k],
+                None => (nd::below(6), nd::below($plan.labels) as usize, usize::MAX, false),
+            };
             if ev < 4 {
-                let y = if ev >= 2 { nd::below($plan.labels) as usize } else { 0 };
+                let y = if fy != usize::MAX { fy } else if ev >= 2 { nd::below($plan.labels) as usize } else { 0 };
                 let mut probe = $m;
                 let (valid, redundant) = model_update(&mut probe, ev, x, y);
                 if !$plan.allow_bad {
@@ -232,7 +243,7 @@ macro_rules! drive {
             } else {
                 // a query on a live argument
                 nd::assume($m.present[x]);
-                let cert = nd::bool_();
+                let cert = if $plan.fixed.is_some() { fcert } else { nd::bool_() };
                 queries += 1;
                 if ev == 4 {
                     if let Some(sem) = $sem_dc {
